@@ -33,6 +33,8 @@ ASSUMPTIONS = [
     'an error raised inside a lazily evaluated, non-final pipeline stage is out of domain (when it surfaces is unspecified)',
     'a set receiver is modelled on the iteration order of that very frozenset object; dictionary order is not compared',
     'composite set elements / dict keys are left to C10 (finalisation), bool-vs-number equality to C15',
+    'a collection-valued result (a lazily produced one after toList) is an immutable yaql value: hashable, and equal to an '
+    'equally built literal; the wrapper forms read only numbers / booleans, so C10 finalisation is not involved',
 ]
 BOUNDS = {
     'quick': 'single operators: sequences over {1,2,null,a} of length <= 3 (85; call forms with > 8 argument combinations: length <= 2) '
@@ -40,12 +42,15 @@ BOUNDS = {
              'set pairs <= 3 elements; 2-pipelines: every ordered pair of call forms (one instance each) on sequences over '
              '{1,2,null} of length <= 2 x {tuple, iterator}; 3-chains over a 12-instance streaming core (+5 terminal searches) on '
              'sequences over {2,null} of length <= 2; dictionaries as elements of hash-based functions (equal values, different '
-             'key order; data and literals) length <= 2',
+             'key order; data and literals) length <= 2; nested use of every collection-valued result (element of distinct, two '
+             'results in one set, dict key, = / indexOf / set with the equal literal): inputs of length <= 2, 3 argument '
+             'combinations per call form',
     'thorough': 'single operators: sequences over {1,2,3,null,a} of length <= 4 (781; forms with > 24 argument combinations: <= 3), '
                 'pair family length <= 4, nested family <= 3, dicts <= 3 keys, set pairs <= 5 elements; 2-pipelines: every ordered pair of '
                 'instances over the reduced argument alphabet on sequences over {1,2,null,a} of length <= 2, and one instance per '
                 'form on length 3; 3-chains over the 16-instance core on {1,2,null} length <= 3; 4-chains over the 12-instance core '
-                'on {1,null} length <= 2; dictionaries as elements of hash-based functions length <= 3',
+                'on {1,null} length <= 2; dictionaries as elements of hash-based functions length <= 3; nested use of every '
+                'collection-valued result (element, set element, dict key, = literal): inputs of length <= 3, all arguments',
 }
 JOB_LIMIT = {'quick': 900, 'thorough': 5400}
 
@@ -747,6 +752,120 @@ def job_chain(core, alphabet, length, maxlen, k, njobs):
 
 
 # ---------------------------------------------------------------------------
+# a collection-valued result is an immutable value: hashable and equal to an equally built one
+# ---------------------------------------------------------------------------
+PLAIN_COLLECTIONS = (tuple, list, set, frozenset, dict, yutils.FrozenDict)
+MUTABLE = (list, dict, set, bytearray)
+
+
+def literal(v):
+    """The yaql spelling of a model value (None when it has none)."""
+    if v is None:
+        return 'null'
+    if isinstance(v, bool):
+        return 'true' if v else 'false'
+    if isinstance(v, int):
+        return str(v) if v >= 0 else '(%d)' % v
+    if isinstance(v, str):
+        return "'%s'" % v if "'" not in v and '\\' not in v else None
+    if isinstance(v, list):
+        parts = [literal(x) for x in v]
+        return None if None in parts else '[%s]' % ', '.join(parts)
+    if isinstance(v, frozenset):
+        parts = [literal(x) for x in v]
+        return None if None in parts else 'set(%s)' % ', '.join(parts)
+    if isinstance(v, dict):
+        parts = [(literal(k), literal(x)) for k, x in v.items()]
+        return None if any(a is None or b is None for a, b in parts) else '{%s}' % ', '.join('%s => %s' % t for t in parts)
+    return None
+
+
+def has_mutable(raw, depth=0):
+    """Diagnosis: a mutable Python container anywhere in an unfinalised result."""
+    if isinstance(raw, MUTABLE):
+        return True
+    if depth > 6 or isinstance(raw, str):
+        return False
+    if isinstance(raw, (tuple, frozenset)):
+        return any(has_mutable(x, depth + 1) for x in raw)
+    if isinstance(raw, yutils.FrozenDict):
+        return any(has_mutable(k, depth + 1) or has_mutable(x, depth + 1) for k, x in raw.items())
+    return False
+
+
+def producer(form, pres):
+    if form.fn == 'insert':
+        return 'list_insert' if pres == 'tuple' else 'iter_insert'
+    return form.fn
+
+
+def nested_text(form_text, lazy, lit, one_shot):
+    """One expression using the result G of a call form as an element, a set
+    element, a dict key and an operand of = / indexOf; every part is a number
+    or a boolean, so finalisation (C10) is not involved.  A one-shot receiver
+    is evaluated once (let), any other twice (two separately built results)."""
+    g = '(%s)%s' % (form_text, '.toList()' if lazy else '')
+    a, b = ('$', '$') if one_shot else (g, g)
+    parts = [('as element of distinct', '[%s].distinct().len()' % a, 1),
+             ('two results in one set', '[%s, %s].toSet().len()' % (a, b), 1),
+             ('as dict key', '{%s => 1}.len()' % a, 1)]
+    if lit is not None:
+        parts += [('in one set with the equal literal', '[%s, %s].toSet().len()' % (a, lit), 1),
+                  ('indexOf the equal literal', '[%s].indexOf(%s)' % (a, lit), 0),
+                  ('= the equal literal', '%s = %s' % (a, lit), True)]
+    body = '[%s]' % ', '.join(t for _, t, _ in parts)
+    return ('let(%s) -> %s' % (g, body) if one_shot else body), [n for n, _, _ in parts], [e for _, _, e in parts]
+
+
+def run_nested(res, form, args, unit):
+    """The derived wrapper forms of one call-form case whose model result is a collection."""
+    variables, c, d = inputs(form, unit)
+    exp, _ = form.expected(c, args, unit[0], d)
+    if exp is None or exp[0] != 'v' or not isinstance(exp[1], (list, dict, frozenset)):
+        return
+    text = form.text(args)
+    try:                                  # what kind of object is handed out: a plain collection or a lazy one
+        raw = yq.evaluate(text, variables=variables, options=RAW)
+        lazy = not isinstance(raw, PLAIN_COLLECTIONS)
+        mutable = has_mutable(tuple(raw) if lazy else raw)
+    except Exception:
+        return                            # the single-operator check judges this case
+    res.evaluations += 1
+    # a lazy result is compared as the list it unfolds to; the order of a lazy set / dict view is not documented
+    lit = None if form.unordered or (lazy and not isinstance(exp[1], list)) else literal(exp[1])
+    wtext, names, expected = nested_text(text, lazy, lit, unit[0] == 'iter')
+    res.case(('nested', wtext, unit))
+    obs = observe(wtext, **inputs(form, unit)[0])
+    res.evaluations += 1
+    res.transitions += len(names)
+    res.nontrivial += 1
+    res.outcomes['nested use: ' + ('agrees' if obs == ('v', expected) else label(obs))] += 1
+    if obs != ('v', expected) or not all(M.same(x, y) for x, y in zip(obs[1], expected)):
+        bad = ([n for n, x, y in zip(names, obs[1], expected) if not M.same(x, y)]
+               if obs[0] == 'v' and isinstance(obs[1], list) and len(obs[1]) == len(expected) else [obs[1]])
+        key = ('python-mutable-result producer=%s' % producer(form, unit[0]) if mutable else
+               'nested-use-mismatch fn=%s recv=%s' % (form.fn, unit[0]))
+        res.fail(key, {'kind': 'nested', 'form': form.name, 'args': args, 'unit': list(unit)},
+                 '%s: observed %r expected %r; failing: %s; handed out: %s' % (wtext, obs, expected, bad, type(raw).__name__))
+
+
+def job_nested(tier, k, njobs):
+    res = Result()
+    for form in FORMS:
+        # quick: inputs of length <= 2, three argument combinations per form; thorough: length <= 3, every combination
+        n = 2 if tier == 'quick' else 3
+        us = [u for u in units(form, tier) if u[1] is None or (len(u[1]) <= n and (len(u) < 3 or len(u[2]) < n))]
+        us = us[k::njobs] if form.recv != 'none' else (us if k == 0 else [])
+        for unit in us:
+            combos = list(arg_combos(form, len(unit[1]) if unit[1] is not None else 2))
+            if tier == 'quick':
+                combos = [combos[i] for i in sorted(set((0, len(combos) // 2, len(combos) - 1)))]
+            for args in combos:
+                run_nested(res, form, args, unit)
+    return res
+
+
+# ---------------------------------------------------------------------------
 # laws on observed results
 # ---------------------------------------------------------------------------
 def _val(obs):
@@ -887,6 +1006,9 @@ def jobs(tier, seed):
     for core, alphabet, length, maxlen, n in plan3:
         for k in range(n):
             out.append(('chain%d-%02d' % (length, k), 'job_chain', (core, alphabet, length, maxlen, k, n)))
+    nn = 8 if quick else 32
+    for k in range(nn):
+        out.append(('nested-%02d' % k, 'job_nested', (tier, k, nn)))
     for k in range(4):
         out.append(('laws-%d' % k, 'job_laws', (tier, k, 4)))
     return out
@@ -914,6 +1036,14 @@ def replay(case):
         obs = observe(pipe_text(ops), c=build(case['pres'], case['seq']))
         return {'text': pipe_text(ops), 'input': [case['pres'], case['seq']], 'observed': repr(obs), 'expected': repr(exp),
                 'ok': exp is None or agree(obs, exp, BY_NAME[ops[-1][0]].unordered)}
+    if k == 'nested':
+        form, unit = BY_NAME[case['form']], tuple(case['unit'])
+        res = Result()
+        run_nested(res, form, case['args'], unit)
+        f = list(res.failures.values())
+        return {'text': form.text(case['args']), 'input': list(unit), 'observed': f[0].detail if f else 'agrees',
+                'expected': 'the result used as element / set element / dict key / operand of = behaves as an immutable value',
+                'ok': not f}
     if k == 'law':
         res = Result()
         if case['law'] == 'sequence':
